@@ -1797,14 +1797,31 @@ class Module(ABC):
         if name in channel_names:
             channel_cols = list(channel.channel_params.keys())
             channel_cols += list(channel.channel_states.keys())
-            self.base.nodes.loc[self._nodes_in_view, channel_cols] = float("nan")
+
+            # Parameters (e.g. `vt`, `eK`) and current names (e.g. `i_K`) can be shared
+            # with other channels. They must survive wherever such a channel remains.
+            other_channels = [c for c in self.base.channels if c._name != name]
+            cols_of = lambda c: list(c.channel_params.keys()) + list(c.channel_states.keys())
+            for col in channel_cols:
+                sharing = [c._name for c in other_channels if col in cols_of(c)]
+                needed = self.base.nodes.loc[self._nodes_in_view, sharing].any(axis=1)
+                unneeded_inds = self._nodes_in_view[~needed.to_numpy().astype(bool)]
+                self.base.nodes.loc[unneeded_inds, col] = float("nan")
             self.base.nodes.loc[self._nodes_in_view, name] = False
 
             # only delete cols if no other comps in the module have the same channel
             if np.all(~self.base.nodes[name]):
                 self.base.channels.pop(all_channel_names.index(name))
-                self.base.membrane_current_names.remove(channel.current_name)
-                self.base.nodes.drop(columns=channel_cols + [name], inplace=True)
+                if channel.current_name not in [
+                    c.current_name for c in other_channels
+                ]:
+                    self.base.membrane_current_names.remove(channel.current_name)
+                unshared_cols = [
+                    col
+                    for col in channel_cols
+                    if not any(col in cols_of(c) for c in other_channels)
+                ]
+                self.base.nodes.drop(columns=unshared_cols + [name], inplace=True)
         else:
             raise ValueError(f"Channel {name} not found in the module.")
 
